@@ -403,6 +403,60 @@ def _overlap_truth(c, p, lvl):
     return None
 
 
+def check_level0_closure(ctx):
+    """Level-0 files overlap each other: whenever a picked file widens the range
+    (downwards or upwards) the scan restarts so that files skipped earlier are
+    reconsidered.  Otherwise a newer level-0 file can be compacted away from
+    above an older one that still shadows it in lookups."""
+    P = ctx.P
+    f = ctx.fn("ldb_version_get_overlapping_inputs", VS)
+    g = xgraph(P, f)
+    ext = {"user_begin": ("file_start", "<"), "user_end": ("file_limit", ">")}
+    for var, (src, op) in sorted(ext.items()):
+        sts = [(b, i, e) for (b, i, e) in f.events("asg") if key(e["lhs"]) == var and key(e["rhs"]) == src]
+        ctx.check(len(sts) == 1, "T2-level0-closure", "extends:" + var, f.name, f.loc,
+                  "a picked level-0 file can widen %s" % var, "range extension of %s changed (%d sites)" % (var, len(sts)))
+        for b, i, e in sts:
+            atoms = g.must_at(b, i)
+            ctx.check(holds(atoms, ("==", "level", "0")) and holds(atoms, (op, "re:.*compare.*%s.*%s.*#\\d+" % (src, var), "0")),
+                      "T2-level0-closure", "guard:" + var, f.name, site(f, e),
+                      "the range is widened exactly when the picked file sticks out",
+                      "range widening guard changed; facts %s" % fmt_atoms(atoms))
+            must_pass_before_success(ctx, "T2-level0-closure", "restart:" + var, f,
+                                     lambda ev, l=e["l"]: ev["e"] == "asg" and ev.get("l") == l,
+                                     lambda ev: ev["e"] == "asg" and key(ev["lhs"]) == "i" and const_val(ev["rhs"]) == 0,
+                                     "after widening the range the scan restarts from the first file",
+                                     success=lambda ev, st: True)
+            must_pass_before_success(ctx, "T2-level0-closure", "reset:" + var, f,
+                                     lambda ev, l=e["l"]: ev["e"] == "asg" and ev.get("l") == l,
+                                     lambda ev: is_call(ev, "ldb_vector_reset") and argkey(ev, 0) == "inputs",
+                                     "after widening the range the collected inputs are discarded",
+                                     success=lambda ev, st: True)
+    # a file is skipped only if it lies completely before / after the range
+    push = one_call(ctx, f, "ldb_vector_push")[0]
+    iteration = lambda ev: ev["e"] == "decl" and ev["n"] == "f"
+    from ..rules import iteration_equiv
+    flags = {
+        "before": lambda c, p: _cmp_sign(c, p, "file_limit", "user_begin") == "<",
+        "notbefore": lambda c, p: _cmp_sign(c, p, "file_limit", "user_begin") == ">=" or rel_edge(c, p, "==", "begin", 0),
+        "after": lambda c, p: _cmp_sign(c, p, "file_start", "user_end") == ">",
+        "notafter": lambda c, p: _cmp_sign(c, p, "file_start", "user_end") == "<=" or rel_edge(c, p, "==", "end", 0),
+    }
+    iteration_equiv(ctx, "T2-level0-closure", "skip-iff-disjoint", f, iteration, lambda ev: is_call(ev, "ldb_vector_push"),
+                    flags, exec_ok=lambda fl: "notbefore" in fl and "notafter" in fl,
+                    skip_ok=lambda fl: "before" in fl or "after" in fl,
+                    what="a file is left out iff it ends before the range or starts after it")
+
+
+def _cmp_sign(c, p, a, b):
+    """branch edge on `compare(uc, &a, &b) <op> 0` -> the relation it establishes between a and b"""
+    from ..paths import norm_literal
+    for op, x, y in norm_literal(c, p):
+        if y == "0" and "compare" in x and ("(&%s), (&%s)" % (a, b)) in x:
+            return op
+    return None
+
+
 def check_table_get(ctx):
     P = ctx.P
     ig = ctx.fn("ldb_table_internal_get", "src/table/table.c")
@@ -462,4 +516,5 @@ def check(ctx):
     check_comparator(ctx)
     check_compaction_drop(ctx)
     check_inputs(ctx)
+    check_level0_closure(ctx)
     check_table_get(ctx)
